@@ -18,6 +18,8 @@ From crates/usvg/src/parser/{converter.rs, switch.rs, shapes.rs, svgtree/mod.rs,
   attr_ns_kept            namespaces whose attributes parse_svg_element copies
   valid_ts_tests          the conjuncts of the final test of SvgNode::has_valid_transform (tiny-skia is_valid; determinant above
                           f32::EPSILON relative to |ad| + |bc|, as of 427fd1e)
+  filter_facts            parser/filter.rs create_base_filter_func: without an object bbox the closure returns before anything is
+                          generated; cache.gen_filter_id() is called once, after the region was computed
   special_attr_lookups    how the `style`, `id` and `class` XML attributes are looked up (plain-string roxmltree lookup =
                           attribute without a namespace; a local-name comparison would accept foreign-namespace ones)
   style_element_lookup    how resolve_css finds `style` elements
@@ -106,6 +108,7 @@ DEFAULTS = {
     'gen_prefixes': 'list string := ["linearGradient"; "radialGradient"; "pattern"; "clipPath"; "mask"; "filter"; "image"]',
     'attr_ns_kept': 'list attr_ns := [ANS_None; ANS_Svg; ANS_Xlink; ANS_Xml]',
     'valid_ts_tests': 'list ts_test := [TT_IsValid; TT_DetRelTol]',
+    'filter_facts': 'list filter_fact := [FF_NoBBoxReturnsEarly; FF_GenIdAfterRegionCheck]',
     'special_attr_lookups': 'list (special_attr * lookup_kind) := [(SA_Style, LK_NoNamespace); (SA_Id, LK_NoNamespace); (SA_Class, LK_NoNamespace)]',
     'style_element_lookup': 'lookup_kind := LK_SvgNamespace',
     'css_facts': 'list css_fact := [CF_ParentElement; CF_PrevSiblingElement; CF_FirstChildViaPrevSibling; CF_AttrMatchNoNamespace]',
@@ -467,3 +470,25 @@ def extract(api, src, put, group):
                 raise Miss("has_valid_transform: unknown conjunct %r" % c)
         put('valid_ts_tests', 'list ts_test', coq_list(tests))
     group(sec_valid_ts)
+
+    def sec_filter_func():  # filter functions on elements without a bounding box
+        ft = norm(api.rd('crates/usvg/src/parser/filter.rs'))
+        m = need(r"let create_base_filter_func = \|kind, filters: &mut Vec<Arc<Filter>>, cache: &mut converter::Cache\| \{(.*?)\n?\}; ", ft + ' ',
+                 "filter.rs: create_base_filter_func closure") if False else None
+        i = ft.find("let create_base_filter_func =")
+        j = ft.find("for func in", i)
+        if i < 0 or j < 0:
+            raise Miss("filter.rs: create_base_filter_func closure")
+        body = ft[i:j]
+        facts = []
+        a = re.search(r"let object_bbox = match object_bbox \{ Some\(v\) => v, None => \{ log::warn!\([^;]*\); return; \} \};", body)
+        g = [x.start() for x in re.finditer(r"cache\.gen_filter_id\(\)", body)]
+        r_ = re.search(r"rect = match crate::checked_bbox_transform\(rect, object_bbox\) \{ Some\(v\) => v, None => \{ log::warn!\([^;]*\); return; \} \};", body)
+        if a:
+            facts.append('FF_NoBBoxReturnsEarly')
+        if a and r_ and len(g) == 1 and g[0] > a.end() and g[0] > r_.end():
+            facts.append('FF_GenIdAfterRegionCheck')
+        put('filter_facts', 'list filter_fact', coq_list(facts))
+        if len(facts) != 2:
+            raise Miss("filter.rs create_base_filter_func: the filter id is generated before the bounding box / region checks (%s)" % ', '.join(facts))
+    group(sec_filter_func)
